@@ -2,7 +2,7 @@
 import numpy as np
 from hypothesis import strategies as st
 
-from vlib import gens, sysgen, tempogen
+from vlib import gens, mfgen, sysgen, tempogen
 from vlib.runner import Outcome, Sub
 
 ID = "C05"
@@ -125,8 +125,61 @@ def run_dyn(case):
     return out
 
 
+@st.composite
+def s_mf_case(draw, tier):
+    mf = draw(mfgen.mf_spec(tier, ns_max=2, dims=(2, 3)))
+    dmax = max(s["d"] for s in mf["systems"])
+    return {"mf": mf, "par": draw(tempogen.params_spec(dmax, tier, n_min=2, n_max=5, eps=[1e-8, 1e-9])),
+            "baths": [draw(tempogen.bath_spec(s["d"], distinct_if_rotated=False, custom_weight=0.0,
+                                              temps=[0.0, 0.5, 5.0], zetas=[1.0, 2.0, 3.0])) for s in mf["systems"]],
+            "Vs": [draw(gens.unitary_spec(s["d"], allow_identity=False)) for s in mf["systems"]],
+            "t0": draw(st.sampled_from([0.0, 0.6])), "unique": draw(st.booleans())}
+
+
+def run_mf(case):
+    import oqupy
+    out = Outcome()
+    mf, p, t0 = case["mf"], case["par"], case["t0"]
+    ds = [s["d"] for s in mf["systems"]]
+    Vs = [gens.build_unitary(v, d) for v, d in zip(case["Vs"], ds)]
+    par = tempogen.build_params(p)
+    t_end = tempogen.end_time(p, t0)
+    rhos = mfgen.initial_states(mf)
+    a0 = complex(*mf["a0"])
+    baths_a, baths_b = [], []
+    for b, d, V in zip(case["baths"], ds, Vs):
+        sd, D, f = tempogen.conditioned_sd(b, p)
+        O, W = tempogen.coupling_operator(b, d)
+        if b["V"]["kind"] == "identity":
+            O = np.diag(np.array(b["o"], dtype=float)).astype(complex)
+        O2 = V @ O @ V.conj().T
+        O2 = (O2 + O2.conj().T) / 2
+        off = np.abs(O2 - np.diag(np.diag(O2))).max()
+        if 0 < off < 1e-3:
+            out.label("near-diagonal-skipped")
+            return out
+        corr = gens.build_corr(sd)
+        baths_a.append(oqupy.Bath(O, corr))
+        baths_b.append(oqupy.Bath(O2, corr))
+    out.nontrivial = any(not gens.is_phase_permutation(V) for V in Vs)
+    out.label(f"systems={len(ds)}", "cutoff-active" if tempogen.cutoff_active(p) else "full-memory")
+    da = oqupy.MeanFieldTempo(mfgen.build_mf_system(mf), baths_a, par, rhos, a0, start_time=t0,
+                              unique=case["unique"]).compute(t_end, progress_type="silent")
+    db = oqupy.MeanFieldTempo(mfgen.build_mf_system(mf, rots=Vs), baths_b, par,
+                              [V @ r @ V.conj().T for V, r in zip(Vs, rhos)], a0, start_time=t0,
+                              unique=case["unique"]).compute(t_end, progress_type="silent")
+    amax = max(1.0, float(np.abs(np.array(da.fields)).max()))
+    tol = tempogen.trunc_tol(p, 100.0, scale=amax)
+    out.check_close("mean-field/field", np.array(db.fields), np.array(da.fields), tol, "field under the basis change")
+    for i, V in enumerate(Vs):
+        want = np.einsum("ab,tbc,cd->tad", V, np.array(da.system_dynamics[i].states), V.conj().T)
+        out.check_close("mean-field/states", np.array(db.system_dynamics[i].states), want, tol, f"system {i}")
+    return out
+
+
 def subs(tier):
     return [
         Sub("bath", run_bath, strategy=s_bath_case, budget={"quick": 5000, "thorough": 50000}),
         Sub("dynamics", run_dyn, strategy=s_dyn_case, budget={"quick": 160, "thorough": 1500}),
+        Sub("mean-field", run_mf, strategy=s_mf_case, budget={"quick": 96, "thorough": 900}),
     ]
